@@ -7,17 +7,17 @@ config-file items into the argument vector, and of the CPython pieces they call)
 
 Quoting (`quote1 q s` = one-line Python literal, `quote3 q s` = triple-quoted literal, `q ∈ {", '}`):
 * `quote_roundtrip`          ∀ s : every character, both quote characters: recognised and read back (one-line form)
-* `quote3_roundtrip_partial` the same for the triple form under `s ≠ []`
-* `quote3_empty_counterexample`  `""""""` is NOT recognised and comes back as six quote characters
+* `quote3_roundtrip`         the same for the triple forms, full strength since commit 65e15f6 (empty string included)
+* `quote_roundtrip_rawnul`, `quote3_roundtrip_rawnul`  the same with NUL left raw (since commit cada0b1)
+* historical: `quote3_roundtrip_old_partial`, `quote3_empty_old_counterexample`, `raw_nul_old_counterexample` (`isQuotedOld`/`unquoteStrOld`)
 * `unquoted_passthrough`, `not_quoted_of_head`
 INI path (`iniValue splitMl raw`; since /repo commit d27392d the parser is built with `interpolation=None`):
 * `ini_quote_roundtrip`           full strength: every string, `%` included (one-line forms)
-* `ini_quote3_roundtrip_partial`  triple forms, `s ≠ []`; `ini_quote3_empty_counterexample`
+* `ini_quote3_roundtrip`, `ini_quote_roundtrip_rawnul`  full strength
 * `ini_list_roundtrip`            full strength: `key = ["a", "b", …]`
 * historical (`iniValueOld basicInterp`, the code before d27392d): `ini_quote_roundtrip_old_partial` (needed "no `%`"),
   `ini_quote_roundtrip_old_counterexample`, `ini_percent_percent_old_counterexample`,
   `ini_list_roundtrip_old_partial`, `ini_list_roundtrip_old_counterexample`, `iniValue_eq_old`
-* `raw_nul_counterexample`        a raw NUL between quotes is recognised as quoted but cannot be evaluated
 Merge (any option table):
 * `cli_overrides_file`, `append_in_order`, `append_cli_in_order`, `unknown_key_filtered`,
   `unknown_key_not_applied`, `file_eq_cli`, `file_eq_cli_flag`, `file_eq_cli_count`, `later_file_wins`
@@ -213,12 +213,25 @@ theorem pyEval_quote1 (q : Char) (hq : IsQ q) (s : Str) : pyEval (quote1 q s) = 
   pyEval_of_scan (quote1 q s) _ s q _ hq rfl (mem_quote1 q hq s) (scanLiteral_quote1 q hq s)
     (decodeEsc_flatMap (esc1 q) (decodeEsc_esc1 q · hq) s)
 
+theorem nulEscape_id (l : Str) (h : Char.ofNat 0 ∉ l) : nulEscape l = l := by
+  induction l with
+  | nil => rfl
+  | cons c l ih =>
+    have hc : c ≠ Char.ofNat 0 := fun e => h (by simp [e])
+    have hl : Char.ofNat 0 ∉ l := fun e => h (by simp [e])
+    have := ih hl
+    simp only [nulEscape, List.flatMap_cons] at this ⊢
+    simp [hc, this]
+
+theorem nulEscape_quote1 (q : Char) (hq : IsQ q) (s : Str) : nulEscape (quote1 q s) = quote1 q s :=
+  nulEscape_id _ (fun h => (mem_quote1 q hq s _ h).2 rfl)
+
 /-- **Config.quote_roundtrip** (full strength: every string, both quote characters): the one-line quoted
 form is recognised by `is_quoted` (with and without `triple`) and `unquote_str` returns the text. -/
 theorem quote_roundtrip (q : Char) (hq : IsQ q) (s : Str) (triple : Bool) :
     isQuoted triple (quote1 q s) = true ∧ unquoteStr triple (quote1 q s) = .ok s := by
   refine ⟨isQuoted_quote1 q hq s triple, ?_⟩
-  simp [unquoteStr, isQuoted_quote1 q hq s triple, pyEval_quote1 q hq s]
+  simp [unquoteStr, isQuoted_quote1 q hq s triple, nulEscape_quote1 q hq s, pyEval_quote1 q hq s]
 
 example : quote1 '"' "a\"b\\c\nd%'".toList = "\"a\\\"b\\\\c\\nd%'\"".toList := by decide +kernel
 example : unquoteStr true (quote1 '\'' "it's 100% [x]; #=\t\r".toList) = .ok "it's 100% [x]; #=\t\r".toList := by decide +kernel
@@ -353,30 +366,44 @@ theorem pyEval_quote3 (q : Char) (hq : IsQ q) (s : Str) : pyEval (quote3 q s) = 
   pyEval_of_scan (quote3 q s) _ s q _ hq rfl (mem_quote3 q hq s) (scanLiteral_quote3 q hq s)
     (decodeEsc_flatMap (escChar q) (decodeEsc_escChar q · hq) s)
 
-/-
-Full-strength statement (false of the current code):
-  ∀ q s, isQuoted true (quote3 q s) = true ∧ unquoteStr true (quote3 q s) = .ok s
-It fails exactly at `s = []`: `_TRIPLE_QUOTED_STR_REGEX` demands one character (or escape pair) before the
-closing delimiter, so the empty string written with six quote characters is not recognised
-(`quote3_empty_counterexample`).
--/
+theorem isQuoted_quote3_all (q : Char) (hq : IsQ q) (s : Str) : isQuoted true (quote3 q s) = true := by
+  by_cases hs : s = []
+  · subst hs; rcases hq with rfl | rfl <;> decide +kernel
+  · exact isQuoted_quote3 q hq s hs
 
-/-- **Config.quote_roundtrip**, triple forms: every non-empty string, both quote characters. -/
-theorem quote3_roundtrip_partial (q : Char) (hq : IsQ q) (s : Str) (hs : s ≠ []) :
+theorem nulEscape_quote3 (q : Char) (hq : IsQ q) (s : Str) : nulEscape (quote3 q s) = quote3 q s :=
+  nulEscape_id _ (fun h => (mem_quote3 q hq s _ h).2 rfl)
+
+/-- **Config.quote_roundtrip**, triple forms (full strength since /repo commit 65e15f6: the empty string written
+with six quote characters is recognised too): every string, both quote characters. -/
+theorem quote3_roundtrip (q : Char) (hq : IsQ q) (s : Str) :
     isQuoted true (quote3 q s) = true ∧ unquoteStr true (quote3 q s) = .ok s := by
-  refine ⟨isQuoted_quote3 q hq s hs, ?_⟩
-  simp [unquoteStr, isQuoted_quote3 q hq s hs, pyEval_quote3 q hq s]
+  refine ⟨isQuoted_quote3_all q hq s, ?_⟩
+  simp [unquoteStr, isQuoted_quote3_all q hq s, nulEscape_quote3 q hq s, pyEval_quote3 q hq s]
 
-/-- the empty string written with six quote characters is not recognised as quoted and is returned with
-its six quotes -/
-theorem quote3_empty_counterexample :
-    isQuoted true (quote3 '"' []) = false ∧
-    unquoteStr true (quote3 '"' []) = .ok ['"', '"', '"', '"', '"', '"'] ∧
-    isQuoted true (quote3 '\'' []) = false := by decide +kernel
+/-- HISTORICAL (code before 65e15f6, `isQuotedOld`/`unquoteStrOld`): the triple form needed `s ≠ []` -/
+theorem quote3_roundtrip_old_partial (q : Char) (hq : IsQ q) (s : Str) (hs : s ≠ []) :
+    isQuotedOld true (quote3 q s) = true ∧ unquoteStrOld true (quote3 q s) = .ok s := by
+  have h : isQuotedOld true (quote3 q s) = true := by
+    rcases hq with rfl | rfl
+    · simp [isQuotedOld, matchTriple_quote3 '"' (Or.inl rfl) s hs]
+    · simp [isQuotedOld, matchTriple_quote3 '\'' (Or.inr rfl) s hs]
+  exact ⟨h, by simp [unquoteStrOld, h, pyEval_quote3 q hq s]⟩
 
-/-- Python itself evaluates it to the empty string: the loss is in the recogniser only -/
+/-- HISTORICAL counterexample (fixed by 65e15f6): the empty string written with six quote characters was not
+recognised and came back with its six quotes; today it is read as the empty string -/
+theorem quote3_empty_old_counterexample :
+    isQuotedOld true (quote3 '"' []) = false ∧
+    unquoteStrOld true (quote3 '"' []) = .ok ['"', '"', '"', '"', '"', '"'] ∧
+    isQuotedOld true (quote3 '\'' []) = false ∧
+    unquoteStr true (quote3 '"' []) = .ok [] ∧ unquoteStr true (quote3 '\'' []) = .ok [] := by decide +kernel
+
+/-- Python itself evaluates it to the empty string: the loss was in the recogniser only -/
 theorem quote3_empty_python : pyEval (quote3 '"' []) = .ok [] ∧ pyEval (quote3 '\'' []) = .ok [] := by
   decide +kernel
+
+/-- with `triple=False` the six quotes are not a quoted string (the one-line regex does not match them) -/
+example : isQuoted false (quote3 '"' []) = false := by decide +kernel
 
 /-- without `triple`, a triple-quoted text is never evaluated -/
 example : isQuoted false (quote3 '"' "ab".toList) = false := by decide +kernel
@@ -426,7 +453,9 @@ theorem not_quoted_of_head (triple : Bool) (text : Str) (h : ∀ c, text.head? =
     have hc := h c rfl
     have h1 : c ≠ '"' := fun e => by simp [e, isQuoteChar] at hc
     have h2 : c ≠ '\'' := fun e => by simp [e, isQuoteChar] at hc
-    simp [isQuoted, matchSingle_head _ c rest h1, matchSingle_head _ c rest h2,
+    have he : isEmptyTriple (c :: rest) = false := by
+      simp [isEmptyTriple, h1, h2]
+    simp [isQuoted, he, matchSingle_head _ c rest h1, matchSingle_head _ c rest h2,
       matchTriple_head _ c rest h1, matchTriple_head _ c rest h2]
 
 example : unquoteStr true "plain text".toList = .ok "plain text".toList := by decide +kernel
@@ -436,11 +465,196 @@ example : unquoteStr true ['"', 'a', '\\', '"'] = .ok ['"', 'a', '\\', '"'] := b
 example : isQuoted true ['"', 'a', '\n', 'b', '"'] = true ∧ unquoteStr true ['"', 'a', '\n', 'b', '"'] = .valueError := by
   decide +kernel
 
-/-- a raw NUL between quotes: recognised as quoted, but `literal_eval` refuses the text -/
-theorem raw_nul_counterexample :
-    isQuoted true ['\'', 'a', Char.ofNat 0, 'b', '\''] = true ∧
-    unquoteStr true ['\'', 'a', Char.ofNat 0, 'b', '\''] = .valueError ∧
-    unquoteStr true (quote1 '\'' ['a', Char.ofNat 0, 'b']) = .ok ['a', Char.ofNat 0, 'b'] := by decide +kernel
+/-! ## A NUL character left raw between the quotes (readable since /repo commit cada0b1)
+
+`unquote_str` now evaluates `text.replace('\x00', '\\x00')`.  The recogniser side is proved for any escaping
+function whose outputs are "units" of the quoted body; `esc1R`/`escCharR` (NUL raw) are such functions, and
+replacing the NUL turns `quote1R`/`quote3R` into `quote1`/`quote3`, which Python evaluates to the string. -/
+
+def IsUnit (q : Char) (u : Str) : Prop :=
+  (∃ c, u = [c] ∧ c ≠ '\\' ∧ c ≠ q) ∨ (∃ d, u = ['\\', d] ∧ d ≠ '\n') ∨ u = ['\\', 'x', '0', '0']
+
+theorem isUnit_esc1 (q c : Char) (hq : IsQ q) : IsUnit q (esc1 q c) := by
+  rcases esc1_spec q c hq with ⟨h, h1, h2, -⟩ | ⟨h, -⟩ | ⟨h, -⟩ | ⟨h, -⟩ | ⟨h, -⟩ | ⟨h, -⟩
+  · exact Or.inl ⟨c, h, h1, h2⟩
+  · exact Or.inr (Or.inl ⟨_, h, by decide⟩)
+  · exact Or.inr (Or.inl ⟨_, h, by rcases hq with rfl | rfl <;> decide⟩)
+  · exact Or.inr (Or.inl ⟨_, h, by decide⟩)
+  · exact Or.inr (Or.inl ⟨_, h, by decide⟩)
+  · exact Or.inr (Or.inr h)
+
+theorem isUnit_escChar (q c : Char) (hq : IsQ q) : IsUnit q (escChar q c) := by
+  rcases escChar_spec q c hq with ⟨h, h1, h2, -⟩ | ⟨h, -⟩ | ⟨h, -⟩ | ⟨h, -⟩ | ⟨h, -⟩
+  · exact Or.inl ⟨c, h, h1, h2⟩
+  · exact Or.inr (Or.inl ⟨_, h, by decide⟩)
+  · exact Or.inr (Or.inl ⟨_, h, by rcases hq with rfl | rfl <;> decide⟩)
+  · exact Or.inr (Or.inl ⟨_, h, by decide⟩)
+  · exact Or.inr (Or.inr h)
+
+theorem nul_plain (q : Char) (hq : IsQ q) : IsUnit q [Char.ofNat 0] :=
+  Or.inl ⟨_, rfl, by decide, by rcases hq with rfl | rfl <;> decide⟩
+
+theorem isUnit_esc1R (q c : Char) (hq : IsQ q) : IsUnit q (esc1R q c) := by
+  unfold esc1R; split
+  · next h => subst h; exact nul_plain q hq
+  · exact isUnit_esc1 q c hq
+
+theorem isUnit_escCharR (q c : Char) (hq : IsQ q) : IsUnit q (escCharR q c) := by
+  unfold escCharR; split
+  · next h => subst h; exact nul_plain q hq
+  · exact isUnit_escChar q c hq
+
+theorem singleBody_units (q : Char) (hq : IsQ q) (f : Char → Str) (hf : ∀ c, IsUnit q (f c)) (s : Str) :
+    singleBody q (s.flatMap f ++ [q]) = true := by
+  have h0q : ('0' : Char) ≠ q := by rcases hq with rfl | rfl <;> decide
+  induction s with
+  | nil => rcases hq with rfl | rfl <;> simp [singleBody]
+  | cons c s ih =>
+    simp only [List.flatMap_cons, List.append_assoc]
+    rcases hf c with ⟨x, h, h1, h2⟩ | ⟨d, h, hd⟩ | h
+    · rw [h]; simpa [singleBody_plain q x _ h1 h2] using ih
+    · rw [h]; simpa [singleBody_pair q d _ hd] using ih
+    · rw [h]
+      simp only [List.cons_append, List.nil_append]
+      rw [singleBody_pair q 'x' _ (by decide), singleBody_plain q '0' _ (by decide) h0q,
+        singleBody_plain q '0' _ (by decide) h0q]
+      exact ih
+
+theorem head_units (q : Char) (hq : IsQ q) (f : Char → Str) (hf : ∀ c, IsUnit q (f c)) (s t : Str)
+    (ht : t.head? ≠ some q) : (s.flatMap f ++ t).head? ≠ some q := by
+  have hbs : ('\\' : Char) ≠ q := by rcases hq with rfl | rfl <;> decide
+  cases s with
+  | nil => simpa using ht
+  | cons c s =>
+    simp only [List.flatMap_cons, List.append_assoc]
+    rcases hf c with ⟨x, h, -, h2⟩ | ⟨d, h, -⟩ | h
+    · rw [h]; simp; exact h2
+    · rw [h]; simp; exact hbs
+    · rw [h]; simp; exact hbs
+
+theorem hasTripleQ_units (q : Char) (hq : IsQ q) (f : Char → Str) (hf : ∀ c, IsUnit q (f c)) (s t : Str)
+    (ht : ∀ x ∈ t, x ≠ q) : hasTripleQ q (s.flatMap f ++ t) = false := by
+  have hbs : ('\\' : Char) ≠ q := by rcases hq with rfl | rfl <;> decide
+  have h0 : ('0' : Char) ≠ q := by rcases hq with rfl | rfl <;> decide
+  have hx : ('x' : Char) ≠ q := by rcases hq with rfl | rfl <;> decide
+  induction s with
+  | nil =>
+    simp only [List.flatMap_nil, List.nil_append]
+    induction t with
+    | nil => rfl
+    | cons x t iht =>
+      rw [hasTripleQ_cons_ne q x t (ht x (by simp))]
+      exact iht (fun y hy => ht y (by simp [hy]))
+  | cons c s ih =>
+    have hhead : (s.flatMap f ++ t).head? ≠ some q :=
+      head_units q hq f hf s t (by
+        cases t with
+        | nil => simp
+        | cons x t => simpa using ht x (by simp))
+    simp only [List.flatMap_cons, List.append_assoc]
+    rcases hf c with ⟨x, h, -, h2⟩ | ⟨d, h, -⟩ | h
+    · rw [h]; simp only [List.cons_append, List.nil_append]
+      rw [hasTripleQ_cons_ne q x _ h2]; exact ih
+    · rw [h]; simp only [List.cons_append, List.nil_append]
+      rw [hasTripleQ_cons_ne q _ _ hbs]
+      by_cases hd : d = q
+      · rw [hd, hasTripleQ_q_cons q _ hhead]; exact ih
+      · rw [hasTripleQ_cons_ne q d _ hd]; exact ih
+    · rw [h]; simp only [List.cons_append, List.nil_append]
+      rw [hasTripleQ_cons_ne q _ _ hbs, hasTripleQ_cons_ne q _ _ hx, hasTripleQ_cons_ne q _ _ h0,
+        hasTripleQ_cons_ne q _ _ h0]
+      exact ih
+
+theorem tripleInner_units (q : Char) (hq : IsQ q) (f : Char → Str) (hf : ∀ c, IsUnit q (f c)) (s : Str)
+    (hs : s ≠ []) : tripleInner q (s.flatMap f) = true := by
+  obtain ⟨s', c, rfl⟩ : ∃ s' c, s = s' ++ [c] := ⟨s.dropLast, s.getLast hs, (List.dropLast_concat_getLast hs).symm⟩
+  have h0 := hasTripleQ_units q hq f hf s' [] (by simp)
+  simp only [List.append_nil] at h0
+  simp only [List.flatMap_append, List.flatMap_cons, List.flatMap_nil, List.append_nil]
+  unfold tripleInner
+  rcases hf c with ⟨x, h, h1, h2⟩ | ⟨d, h, -⟩ | h
+  · rw [h]; simp [h1, h2, h0]
+  · rw [h]; simp [h0]
+  · rw [h]
+    have h1 := hasTripleQ_units q hq f hf s' ['\\', 'x', '0'] (by
+      intro x hx; simp at hx; rcases hq with rfl | rfl <;> rcases hx with rfl | rfl | rfl <;> decide)
+    have h0q : ('0' : Char) ≠ q := by rcases hq with rfl | rfl <;> decide
+    simp [h1, h0q]
+
+theorem matchTriple_wrap (q : Char) (hq : IsQ q) (body : Str) (h : tripleInner q body = true) :
+    matchTriple q (q :: q :: q :: (body ++ [q, q, q])) = true := by
+  have hq' : q ≠ '\n' := by rcases hq with rfl | rfl <;> decide
+  have hd : dropFinalNl (q :: q :: q :: (body ++ [q, q, q])) = q :: q :: q :: (body ++ [q, q, q]) := by
+    unfold dropFinalNl
+    simp only [List.reverse_cons, List.reverse_append, List.reverse_nil, List.nil_append, List.cons_append,
+      List.append_assoc]
+    split
+    · next r heq => simp at heq; exact absurd heq.1 hq'
+    · rfl
+  have hs : stripTriple q (q :: q :: q :: (body ++ [q, q, q])) = some body := by simp [stripTriple]
+  simp [matchTriple, hd, hs, h]
+
+theorem isQuoted_quote1R (q : Char) (hq : IsQ q) (s : Str) (triple : Bool) : isQuoted triple (quote1R q s) = true := by
+  have h := singleBody_units q hq (esc1R q) (fun c => isUnit_esc1R q c hq) s
+  rcases hq with rfl | rfl <;> simp [isQuoted, quote1R, matchSingle, h]
+
+theorem isQuoted_quote3R (q : Char) (hq : IsQ q) (s : Str) : isQuoted true (quote3R q s) = true := by
+  by_cases hs : s = []
+  · subst hs; rcases hq with rfl | rfl <;> decide +kernel
+  · have h := matchTriple_wrap q hq _ (tripleInner_units q hq (escCharR q) (fun c => isUnit_escCharR q c hq) s hs)
+    rcases hq with rfl | rfl <;> simp [isQuoted, quote3R, h]
+
+theorem nulEscape_append (a b : Str) : nulEscape (a ++ b) = nulEscape a ++ nulEscape b := by
+  simp [nulEscape, List.flatMap_append]
+
+theorem nulEscape_flatMap (f g : Char → Str) (hfg : ∀ c, nulEscape (f c) = g c) (s : Str) :
+    nulEscape (s.flatMap f) = s.flatMap g := by
+  induction s with
+  | nil => rfl
+  | cons c s ih => simp only [List.flatMap_cons, nulEscape_append, hfg, ih]
+
+theorem nulEscape_esc1R (q c : Char) (hq : IsQ q) : nulEscape (esc1R q c) = esc1 q c := by
+  unfold esc1R; split
+  · next h => subst h; rcases hq with rfl | rfl <;> decide +kernel
+  · exact nulEscape_id _ (fun h => (mem_esc1 q c _ hq h).2 rfl)
+
+theorem nulEscape_escCharR (q c : Char) (hq : IsQ q) : nulEscape (escCharR q c) = escChar q c := by
+  unfold escCharR; split
+  · next h => subst h; rcases hq with rfl | rfl <;> decide +kernel
+  · exact nulEscape_id _ (fun h => (mem_escChar q c _ hq h).2 rfl)
+
+theorem nulEscape_quote1R (q : Char) (hq : IsQ q) (s : Str) : nulEscape (quote1R q s) = quote1 q s := by
+  have hq0 : nulEscape [q] = [q] := by rcases hq with rfl | rfl <;> decide +kernel
+  have h1 : quote1R q s = [q] ++ (s.flatMap (esc1R q) ++ [q]) := rfl
+  rw [h1, nulEscape_append, nulEscape_append, hq0, nulEscape_flatMap _ _ (fun c => nulEscape_esc1R q c hq)]
+  rfl
+
+theorem nulEscape_quote3R (q : Char) (hq : IsQ q) (s : Str) : nulEscape (quote3R q s) = quote3 q s := by
+  have hq0 : nulEscape [q, q, q] = [q, q, q] := by rcases hq with rfl | rfl <;> decide +kernel
+  have h1 : quote3R q s = [q, q, q] ++ (s.flatMap (escCharR q) ++ [q, q, q]) := rfl
+  rw [h1, nulEscape_append, nulEscape_append, hq0, nulEscape_flatMap _ _ (fun c => nulEscape_escCharR q c hq)]
+  rfl
+
+/-- **Config.quote_roundtrip** with NUL left raw (full strength since commit cada0b1): every string, one-line
+forms, both quote characters, both `triple` settings -/
+theorem quote_roundtrip_rawnul (q : Char) (hq : IsQ q) (s : Str) (triple : Bool) :
+    isQuoted triple (quote1R q s) = true ∧ unquoteStr triple (quote1R q s) = .ok s := by
+  refine ⟨isQuoted_quote1R q hq s triple, ?_⟩
+  simp [unquoteStr, isQuoted_quote1R q hq s triple, nulEscape_quote1R q hq s, pyEval_quote1 q hq s]
+
+/-- the same for the triple forms (the empty string included) -/
+theorem quote3_roundtrip_rawnul (q : Char) (hq : IsQ q) (s : Str) :
+    isQuoted true (quote3R q s) = true ∧ unquoteStr true (quote3R q s) = .ok s := by
+  refine ⟨isQuoted_quote3R q hq s, ?_⟩
+  simp [unquoteStr, isQuoted_quote3R q hq s, nulEscape_quote3R q hq s, pyEval_quote3 q hq s]
+
+/-- HISTORICAL counterexample (fixed by cada0b1): a raw NUL between quotes was recognised as quoted but
+`literal_eval` refused the text; today it is read back -/
+theorem raw_nul_old_counterexample :
+    isQuotedOld true ['\'', 'a', Char.ofNat 0, 'b', '\''] = true ∧
+    unquoteStrOld true ['\'', 'a', Char.ofNat 0, 'b', '\''] = .valueError ∧
+    unquoteStr true ['\'', 'a', Char.ofNat 0, 'b', '\''] = .ok ['a', Char.ofNat 0, 'b'] ∧
+    quote1R '\'' ['a', Char.ofNat 0, 'b'] = ['\'', 'a', Char.ofNat 0, 'b', '\''] := by decide +kernel
 
 /-! ## INI path -/
 
@@ -496,21 +710,19 @@ theorem ini_quote_roundtrip (splitMl : Bool) (q : Char) (hq : IsQ q) (s : Str) :
     iniValue splitMl (quote1 q s) = .str s :=
   iniValueOld_of_quoted noInterp splitMl q _ s hq rfl (isQuoted_quote1 q hq s true) (quote_roundtrip q hq s true).2
 
-/-
-Full-strength statement for the triple forms (false of the current code):
-  ∀ q s, iniValue splitMl (quote3 q s) = .str s
-fails only at `s = []`, for the recogniser's reason (`quote3_empty_counterexample`; `ini_quote3_empty_counterexample`).
--/
-
-/-- INI path, triple forms — needs a non-empty value (nothing about `%` any more) -/
-theorem ini_quote3_roundtrip_partial (splitMl : Bool) (q : Char) (hq : IsQ q) (s : Str) (hne : s ≠ []) :
+/-- **Config.ini_quote3_roundtrip** (full strength since commit 65e15f6): INI path, triple forms, every string -/
+theorem ini_quote3_roundtrip (splitMl : Bool) (q : Char) (hq : IsQ q) (s : Str) :
     iniValue splitMl (quote3 q s) = .str s :=
-  iniValueOld_of_quoted noInterp splitMl q _ s hq rfl (isQuoted_quote3 q hq s hne)
-    (quote3_roundtrip_partial q hq s hne).2
+  iniValueOld_of_quoted noInterp splitMl q _ s hq rfl (isQuoted_quote3_all q hq s) (quote3_roundtrip q hq s).2
 
-/-- the empty string written with six quotes in an INI file comes back as the six quotes -/
-theorem ini_quote3_empty_counterexample :
-    iniValue true (quote3 '"' []) = .str ['"', '"', '"', '"', '"', '"'] := by decide +kernel
+/-- INI path with a NUL left raw between the quotes (since commit cada0b1) -/
+theorem ini_quote_roundtrip_rawnul (splitMl : Bool) (q : Char) (hq : IsQ q) (s : Str) :
+    iniValue splitMl (quote1R q s) = .str s :=
+  iniValueOld_of_quoted noInterp splitMl q _ s hq rfl (isQuoted_quote1R q hq s true)
+    (quote_roundtrip_rawnul q hq s true).2
+
+example : iniValue true (quote3 '"' []) = .str [] := by decide +kernel
+example : iniValue true ['\'', 'a', Char.ofNat 0, 'b', '\''] = .str ['a', Char.ofNat 0, 'b'] := by decide +kernel
 
 example : iniValue true (quote1 '"' "100% a # b ; c = [d]\n".toList) = .str "100% a # b ; c = [d]\n".toList := by
   decide +kernel
